@@ -12,7 +12,7 @@ TUS = ['src/threading/rwp/Resource.cpp', 'src/threading/ThreadPool.cpp', 'src/th
        'witness/w_router.cpp', 'witness/w_thread.cpp', 'src/observer/routing/SubjectRouter.cpp',
        'src/observer/routing/RoutingLevelView.cpp', 'src/observer/routing/RoutingKey.cpp']
 
-SYNC_TYPES = ('std::mutex', 'std::condition_variable', 'std::recursive_mutex', 'tulz::rwp::Resource')    # objects that are themselves synchronisation primitives (Resource: C01-C03, C12)
+SYNC_TYPES = ('std::mutex', 'std::condition_variable', 'std::recursive_mutex', 'tulz::rwp::Resource', 'std::shared_mutex')    # objects that are themselves synchronisation primitives (Resource: C01-C03, C12)
 OWNER_API = {'tulz::ThreadPool': {'start', 'clear', 'update', 'stop', 'getExpiryTimeout', 'getMaxThreadCount', 'getActiveThreadCount',
                                   'getThreadCount', 'isRunning'},
              # a stand-alone tulz::Thread: the thread that owns the object starts it, polls it and joins it
@@ -25,7 +25,7 @@ ANY_THREAD = {'tulz::rwp::Resource': None,            # every public member
 
 def collect(facts, rep):
     """runs the engine over every root of the property; returns (engine, roots)"""
-    eng = Engine(facts, max_depth=9)
+    eng = Engine(facts, max_depth=12)
     roots = []
     for f in facts.fns:
         cls = f.d.get('class'); base = f.qname.split('::')[-1]
@@ -65,8 +65,12 @@ def lock_key(tok):
     """identity of a lock for cross-root matching: the lock object's type plus the (class, field) it is reached through;
     reference fields to a Resource designate the router's Resource (flow checked by CR.2 / common.invoker_resource_flow)"""
     cls, fld, mode, rel, ftype = tok
-    if ftype == 'tulz::rwp::Resource' and fld == 'm_resource': return ('tulz::rwp::Resource', 'm_resource')
+    # the router's lock: its own lock field, and the reference / pointer to it that the concurrent handle keeps (flow: DR.3)
+    if ROUTER_LOCK.get('types') and ftype in ROUTER_LOCK['types'] and (strip_targs(cls).startswith('tulz::ConcurrentSubjectRouter')): return ('router-lock',)
     return (cls, fld)
+
+
+ROUTER_LOCK = {}
 
 
 def compatible(m1, m2):
@@ -84,6 +88,8 @@ def run(facts, rep, tier):
                'ConcurrentSubjectRouter: notify/subscribe/unsubscribe/shrink/exists/depth from any thread; user callbacks/tasks are opaque')
     rep.assume('two objects of the same class in different roots may be the same object (may-alias by class); a lock protects a field '
                'when it belongs to the same object or to an object that owns it by value / unique pointer')
+    lf_ = common.router_lock_field(facts)
+    ROUTER_LOCK['types'] = {common._bare(lf_['ctype'])} if lf_ is not None else set()
     eng, roots = collect(facts, rep)
     rep.count('roots', len(roots)); rep.count('thread_roots', len({(t[0].loc) for t in eng.thread_roots}))
     rep.count('field_accesses', len(eng.accesses))
@@ -111,7 +117,7 @@ def run(facts, rep, tier):
         if a.root[1] in OUTSIDE_INTENDED_USE: skipped_roots.add(a.root[1]); continue
         if not shared(a): continue
         t = ftype.get((a.cls, a.field), '')
-        if t.startswith(SYNC_TYPES): continue
+        if t.startswith(SYNC_TYPES) or common.rw_lock_type(facts, t): continue
         byfield[(a.cls, a.field)].append(a)
     for r in sorted(skipped_roots):
         rep.note(f'{r} is outside the intended-use list of the property (setter called while workers run would race); not analysed as a root')
